@@ -1,2 +1,49 @@
-(* Props/C13.v — under construction *)
-From RG Require Import Base.Bytes.
+(* Props/C13.v — property C13: multi-line search reports exactly the lines covered by the
+   pattern's matches.  Statements only.
+   PROVED here: termination of MultiLine::run for every input / matcher obeying the find_at
+   contract / sink (the advance-by-one rule after an empty match is what makes it hold), and the
+   strategy selection.  NOT YET PROVED (tested by the correspondence model = code = ml_ref on every
+   run, see tools/props/C13.py): multi_line_run = ml_ref (Spec/MultiLineSpec.v), the full
+   statement of the property. *)
+From RG Require Import Base.Bytes Model.Lines Model.SearcherCore Model.Glue Proofs.FuelProofs.
+
+(* 1. MultiLine::run always terminates: with the fuel the model gives its loops it never runs out
+      of fuel — every sink step moves the position strictly forward (one extra byte after an empty
+      match) or reaches the end of the input. *)
+Theorem multi_line_run_terminates :
+  forall (cfg : config) (M : matcher) (r : nat -> reply),
+    find_at_ok M ->
+    forall s : bytes, multi_line_run cfg M r s <> RunFuel.
+Proof. exact multi_line_run_terminates_proof. Qed.
+Print Assumptions multi_line_run_terminates.
+
+(* 2. searching resumes on the WHOLE input (find_at with the current position), never on a
+      sub-slice: look-around sees what precedes the resumption point (repair of D6). *)
+Theorem find_uses_whole_input :
+  forall (M : matcher) (c : core) (s : bytes), ml_find M c s = m_find_at M s (pos c).
+Proof. reflexivity. Qed.
+Print Assumptions find_uses_whole_input.
+
+(* 3. the multi-line strategy is selected only when the matcher may match the terminator;
+      otherwise `-U` runs the line-oriented strategy (property C02's "whether or not multi-line
+      mode was requested"). *)
+Theorem multiline_flag_irrelevant_without_terminator_matches :
+  forall (cfg : config) (M : matcher) (r : nat -> reply) (s : bytes),
+    m_nonmatching M (lt_byte (c_lt cfg)) = true ->
+    search_slice cfg M r s = slice_by_line_run cfg M r s.
+Proof.
+  intros cfg M r s H. unfold search_slice, multi_line_with_matcher. rewrite H.
+  now rewrite andb_false_r.
+Qed.
+Print Assumptions multiline_flag_irrelevant_without_terminator_matches.
+
+(* non-vacuity: the contract is satisfiable and an empty-matching matcher terminates *)
+Example empty_matcher_terminates :
+  let cfg := {| c_lt := LTByte 10; c_invert := false; c_after := 0; c_before := 0; c_passthru := false;
+                c_line_number := true; c_stop_on_nonmatch := false; c_binary := BNone; c_multi_line := true |} in
+  let M := {| m_is_match := fun _ => true; m_find_candidate := fun _ => None; m_line_term := None;
+              m_nonmatching := fun _ => false;
+              m_find_at := fun s p => if Nat.leb p (length s) then Some (p, p) else None |} in
+  multi_line_run cfg M (fun _ => Continue) [97; 10; 98; 10]%N
+  = RunOk [EBegin; EMatched 0 (Some 1) [97; 10; 98; 10]%N; EFinish 4 None].
+Proof. vm_compute. reflexivity. Qed.
